@@ -19,6 +19,7 @@ var vTables = []struct{ ns, table, fq string }{
 	{"", "tt", "tt"},
 	{"n", "t", "n:t"},
 	{"", "n_t", "n_t"}, // same length as "n:t", differs only where the namespace separator is
+	{"n", "xt", "n:xt"}, // same namespace as "n:t"; its qualifier ends with the other's and sorts after it
 }
 
 // vTableSel: which of vTables the first tables of a job are (default: in order).
